@@ -68,6 +68,9 @@ EDGES = {
     "shared_importers_rev": "pub struct R§ { pub b: UB§, pub a: UA§ }",
     "shared_importers3": "pub struct R§ { pub c: UC§, pub a: UA§, pub b: UB§ }",
     "shared_importers_direct": "pub struct R§ { pub a: UA§, pub l: LB§ }",
+    # a type reachable only as the argument of a parameter that has a default and that no field names
+    "default_param_arg_inline": "pub struct R§ { pub f: GD§<D§>, pub n: i32 }",
+    "default_param_arg_phantom": "pub struct R§ { pub f: Option<GP§<E§>>, pub n: i32 }",
 }
 
 # What each root refers to, read off its source above the way the documentation describes dependencies:
@@ -119,10 +122,12 @@ EDGE_DEPS = {
     "shared_importers_rev": (["UA", "UB"], []),
     "shared_importers3": (["UA", "UB", "UC"], []),
     "shared_importers_direct": (["UA", "LB"], []),
+    "default_param_arg_inline": (["GD", "D"], []),
+    "default_param_arg_phantom": (["GP", "E"], []),
 }
 HELPER_DEPS = {"D": ([], []), "E": ([], []), "G": ([], []), "M": (["D", "E"], []), "C": (["R", "D"], []), "S1": (["D"], []),
                "S2": (["E", "S1"], []), "FE": (["D", "E"], []), "LA": ([], []), "LB": ([], []), "UA": (["LA"], []), "UB": (["LB"], []),
-               "UC": (["LA", "LB"], [])}
+               "UC": (["LA", "LB"], []), "GD": ([], ["G"]), "GP": ([], [])}
 # export_to of the helper items that have one
 HELPER_PLACES = {"S1": "pair§.ts", "S2": "pair§.ts", "LA": "leaves§.ts", "LB": "leaves§.ts", "UA": "users§.ts", "UB": "users§.ts", "UC": "users§.ts"}
 DPLACES = {"default": "", "dir": '#[ts(export_to = "sub/")]', "file": '#[ts(export_to = "custom/file§.ts")]', "nested": '#[ts(export_to = "a/b/")]',
@@ -155,6 +160,8 @@ def case_unit(n, case):
         '#[derive(TS)] #[ts(export_to = "pair§.ts")] pub struct S1§ { pub d: D§ }',
         '#[derive(TS)] #[ts(export_to = "pair§.ts")] pub struct S2§ { pub e: E§, pub s: Option<Box<S1§>> }',
         '#[derive(TS)] #[ts(tag = "k")] pub enum FE§ { A { d: D§ }, B { e: E§ } }',
+        "#[derive(TS)] pub struct GD§<T = i32> { #[ts(inline)] pub g: G§<T>, pub n: i32 }",
+        "#[derive(TS)] pub struct GP§<T = i32> { #[ts(skip)] pub p: std::marker::PhantomData<T>, pub n: i32 }",
         '#[derive(TS)] #[ts(export_to = "leaves§.ts")] pub struct LA§ { pub v: i32 }',
         '#[derive(TS)] #[ts(export_to = "leaves§.ts")] pub struct LB§ { pub w: i32 }',
         '#[derive(TS)] #[ts(export_to = "users§.ts")] pub struct UA§ { pub a: LA§ }',
